@@ -217,31 +217,32 @@ def containsAt : List DPart → Bool
   | .at :: _ => true
   | _ :: ps => containsAt ps
 
-/-- Quoted parts: the characters collect into one quoted item, except that `$@` breaks the word
-    between parameters (the first joins what precedes, the last what follows) and contributes
-    nothing at all when there are no parameters. `acc = none`: nothing present yet. -/
+/-- `$@` inside double quotes: the first parameter joins what precedes it (`acc`), every boundary
+    between two parameters breaks the word, the last parameter is left open (the new `acc`) to
+    join what follows; no parameters: nothing at all. -/
+def atItems : Option Bytes → List Bytes → List Item × Option Bytes
+  | acc, [] => ([], acc)
+  | acc, [p] => ([], some (acc.getD [] ++ p))
+  | acc, p :: q :: rest =>
+    let (its, a) := atItems none (q :: rest)
+    (.quoted (acc.getD [] ++ p) :: .brk :: its, a)
+
+/-- Quoted parts: the characters collect into one quoted item (`acc`; `none`: nothing present
+    yet), except that `$@` breaks the word between parameters. -/
 def dqItems (env : Env) : List DPart → Option Bytes → List Item
   | [], none => []
   | [], some b => [.quoted b]
   | .at :: rest, acc =>
-    match env.params.map strBytes with
-    | [] => dqItems env rest acc
-    | p :: more =>
-      let first := acc.getD [] ++ p
-      match more.reverse with
-      | [] => dqItems env rest (some first)
-      | last :: midRev =>
-        (.quoted first :: .brk :: midRev.reverse.flatMap fun m => [.quoted m, .brk]) ++
-          dqItems env rest (some last)
+    let (its, a) := atItems acc (env.params.map strBytes)
+    its ++ dqItems env rest a
   | p :: rest, acc =>
     let v := match p with
       | .lit s => dqUnescape s
       | .exp v => strBytes v
       | _ => joinBytes (ifsSep env.ifs) (env.params.map strBytes)   -- `$*`
-    if containsAt (p :: rest) || acc.isNone then
-      -- a word like "$e$@" with nothing in it expands to nothing (bash)
-      dqItems env rest (if v.isEmpty then acc else some (acc.getD [] ++ v))
-    else dqItems env rest (some (acc.getD [] ++ v))
+    -- (`acc = none` only in double quotes that contain `$@`: there a word like "$e$@" with
+    -- nothing in it expands to nothing, as in bash)
+    dqItems env rest (if acc.isNone && v.isEmpty then none else some (acc.getD [] ++ v))
 
 def unquotedElems : List Str → List Item
   | [] => []
@@ -310,24 +311,29 @@ def noEmptyDelim (ifs : Str) : SS → List Item → Bool
       | _ => false
     !bad && noEmptyDelim ifs (splitStep ifs st it) rest
 
+def dpartOk : DPart → Bool
+  | .lit s => !s.contains 0                     -- no NUL byte in source text
+  | _ => true
+
 def partOk : Part → Bool
   | .lit s => !s.isEmpty                        -- the parser never yields an empty literal (brace expansion does)
-  | .dbl ps => !containsAt ps || ps == [.at]    -- `$@` inside double quotes stands alone
+  | .dbl ps => (!containsAt ps || ps == [.at]) && ps.all dpartOk   -- `$@` inside double quotes stands alone
   | _ => true
 
-/-- A part whose result is never split (no unquoted expansion). -/
-def unsplit : Part → Bool
-  | .exp _ => false
-  | .at => false
-  | .star => false
-  | _ => true
+/-- A part that neither splits nor breaks the word: literal, single quotes, double quotes
+    without `$@`. -/
+def plain : Part → Bool
+  | .lit _ => true
+  | .sgl _ => true
+  | .dbl ps => !containsAt ps
+  | _ => false
 
 /-- Hypothesis of `split_spec_partial` (mirrored by `c22Excluded` in harness/c22.go):
-    no empty unquoted literal, `$@` alone in its double quotes, an empty `""` only in words
-    without unquoted expansions, and no non-white-space IFS character delimiting an empty field. -/
+    no empty unquoted literal, `$@` alone in its double quotes, an empty `""` only in words made
+    of literals and quotes, and no non-white-space IFS character delimiting an empty field. -/
 def Clean (env : Env) (parts : List Part) : Prop :=
   parts.all partOk = true ∧
-  (parts.contains (.dbl []) = true → parts.all unsplit = true) ∧
+  (parts.contains (.dbl []) = true → parts.all plain = true) ∧
   noEmptyDelim env.ifs SS.init (parts.flatMap (partItems env)) = true
 
 instance (env : Env) (parts : List Part) : Decidable (Clean env parts) := by
